@@ -11,16 +11,21 @@ use crate::tape::{digest, Tape};
 
 /// Differential between interpreter and compiled program over all assignments of the case.
 pub fn behaviour(t: &mut Tape, g: &Generated, text: &str, ctx: &mut Ctx, what: &str, debugs: &[bool]) -> Result<(usize, usize), Failure> {
-    let env = pipe::dummy_env();
     let (assigns, exhaustive) = assignments(t, g, 4096, 8);
     if exhaustive && g.witnesses.len() > 0 {
         ctx.label("witness-space:exhaustive");
     }
+    check_maps(g, text, &assigns, ctx, what, debugs)
+}
+
+/// The same differential over an explicit list of witness assignments.
+pub fn check_maps(g: &Generated, text: &str, assigns: &[std::collections::HashMap<String, crate::model::Val>], ctx: &mut Ctx, what: &str, debugs: &[bool]) -> Result<(usize, usize), Failure> {
+    let env = pipe::dummy_env();
     let pm = g.param_map();
     let (mut n_ok, mut n_fail) = (0usize, 0usize);
     for &debug in debugs {
         let c = compile(text, to_arguments(g), debug, what)?;
-        for wm in &assigns {
+        for wm in assigns {
             let Some(exp) = expected(&g.prog, wm, &pm)? else {
                 ctx.exclude("no-reference-for-jet-or-budget");
                 continue;
